@@ -41,10 +41,10 @@ SumPuts(q) == IF q = <<>> THEN 0 ELSE Cardinality(Prog[Head(q)].writes) + 1 + Su
 Eager == /\ txnDoneUntil' = TxnBound'
          /\ rdDoneUntil' = RdBound'
 OtherUnch == UNCHANGED <<pc, readTs, cts, nextTs, committedTxns, lastCleanup, txnBegun, txnDone,
-                         rdBegun, rdDone, lockHolder, writeCh, batch, mem, allCommits, result>>
+                         rdBegun, rdDone, lockHolder, writeCh, batch, mem, allCommits, rejected, result>>
 
 \* what a transaction reading at ts sees for key k: the newest stamped commit at or below ts
-Sees(ts, k) == LET cs == {c \in allCommits' : c.ts <= ts /\ k \in c.keys} IN
+Sees(ts, k) == LET cs == {c \in allCommits' : c.ts <= ts /\ k \in c.keys /\ c.ts \notin rejected'} IN
                IF cs = {} THEN 0 ELSE (CHOOSE c \in cs : \A d \in cs : d.ts <= c.ts).ts
 ReadyNow(t) == pc'[t] \in {"waiting"} /\ t \in entered' /\ txnDoneUntil' >= readTs'[t]
 Obs == [ready |-> SeqOf({t \in Txns : t \in entered' /\ pc'[t] = "waiting" /\ txnDoneUntil' >= readTs'[t]}),
@@ -61,7 +61,7 @@ GAlloc(t) ==
     /\ readTs' = [readTs EXCEPT ![t] = nextTs - 1]
     /\ rdBegun' = [rdBegun EXCEPT ![nextTs - 1] = @ + 1]
     /\ pc' = [pc EXCEPT ![t] = "waiting"]
-    /\ UNCHANGED <<cts, nextTs, committedTxns, lastCleanup, txnBegun, txnDone, rdDone, lockHolder, writeCh, batch, mem, allCommits, result>>
+    /\ UNCHANGED <<cts, nextTs, committedTxns, lastCleanup, txnBegun, txnDone, rdDone, lockHolder, writeCh, batch, mem, allCommits, rejected, result>>
     /\ UNCHANGED <<entered, toPut, stampBlocked>> /\ Eager /\ H("alloc", t)
 
 GEnter(t) ==
@@ -74,7 +74,7 @@ GReady(t) ==
     /\ pc[t] = "waiting" /\ t \in entered /\ txnDoneUntil >= readTs[t]
     /\ pc' = [pc EXCEPT ![t] = "active"]
     /\ UNCHANGED <<readTs, cts, nextTs, committedTxns, lastCleanup, txnBegun, txnDone, rdBegun, rdDone, lockHolder,
-                   writeCh, batch, mem, allCommits, result, entered, toPut, stampBlocked>>
+                   writeCh, batch, mem, allCommits, rejected, result, entered, toPut, stampBlocked>>
     /\ Eager /\ H("ready", t)
 
 GDiscard(t) ==
@@ -82,7 +82,7 @@ GDiscard(t) ==
     /\ rdDone' = [rdDone EXCEPT ![readTs[t]] = @ + 1]
     /\ pc' = [pc EXCEPT ![t] = "finished"]
     /\ UNCHANGED <<readTs, cts, nextTs, committedTxns, lastCleanup, txnBegun, txnDone, rdBegun, lockHolder, writeCh,
-                   batch, mem, allCommits, result, entered, toPut, stampBlocked>>
+                   batch, mem, allCommits, rejected, result, entered, toPut, stampBlocked>>
     /\ Eager /\ H("discard", t)
 
 \* StartCommit + NewCommitTs in one step (there is no schedule point between Lock and newCommitTs)
@@ -105,7 +105,7 @@ StampBody(t) ==
             /\ pc' = [pc EXCEPT ![t] = "stamped"]
             /\ lockHolder' = t
             /\ UNCHANGED result
-    /\ UNCHANGED <<readTs, txnDone, rdBegun, writeCh, batch, mem, entered, toPut>>
+    /\ UNCHANGED <<readTs, txnDone, rdBegun, writeCh, batch, mem, entered, toPut, rejected>>
 
 GStamp(t) ==
     /\ pc[t] = "active" /\ Prog[t].upd /\ Prog[t].writes # {} /\ lockHolder = 0 /\ stampBlocked = {}
@@ -129,7 +129,7 @@ GEnqueue(t) ==
     /\ EnqueueBody(t)
     /\ lockHolder' = 0
     /\ pc' = [pc EXCEPT ![t] = "queued"]
-    /\ UNCHANGED <<readTs, cts, nextTs, committedTxns, lastCleanup, txnBegun, txnDone, rdBegun, rdDone, mem, allCommits, result,
+    /\ UNCHANGED <<readTs, cts, nextTs, committedTxns, lastCleanup, txnBegun, txnDone, rdBegun, rdDone, mem, allCommits, rejected, result,
                    entered, stampBlocked>>
     /\ Eager /\ H("enqueue", t)
 
@@ -156,8 +156,21 @@ GEnqueueHandover(t, u) ==
             /\ pc' = [pc EXCEPT ![t] = "queued", ![u] = "stamped"]
             /\ lockHolder' = u
             /\ UNCHANGED result
-    /\ UNCHANGED <<readTs, txnDone, rdBegun, mem, entered>>
+    /\ UNCHANGED <<readTs, txnDone, rdBegun, mem, entered, rejected>>
     /\ Eager /\ hist' = Append(hist, [act |-> "enqueue+stamp", t |-> t, u |-> u, obs |-> Obs])
+
+\* the harness blocks writes (db.blockWrites) around this enqueue: sendToWriteCh returns
+\* ErrBlockedWrites, commitAndSend calls doneCommit, Commit returns the error; no lock hand-over pending
+GReject(t) ==
+    /\ pc[t] = "stamped" /\ stampBlocked = {}
+    /\ txnDone' = txnDone \cup {cts[t]}
+    /\ rejected' = rejected \cup {cts[t]}
+    /\ lockHolder' = 0
+    /\ result' = [result EXCEPT ![t] = "rejected"]
+    /\ pc' = [pc EXCEPT ![t] = "finished"]
+    /\ UNCHANGED <<readTs, cts, nextTs, committedTxns, lastCleanup, txnBegun, rdBegun, rdDone, writeCh, batch, mem,
+                   allCommits, entered, toPut, stampBlocked>>
+    /\ Eager /\ H("reject", t)
 
 \* one memtable put of the current batch (entries + one end-of-transaction marker per request).
 \* After the last put writeRequests finishes on its own (Wg.Done for every request) and doWrites
@@ -172,7 +185,7 @@ GPut ==
             /\ batch' = writeCh /\ writeCh' = <<>>
             /\ toPut' = SumPuts(writeCh)
     /\ UNCHANGED <<readTs, cts, nextTs, committedTxns, lastCleanup, txnBegun, txnDone, rdBegun, rdDone, lockHolder,
-                   allCommits, result, entered, stampBlocked>>
+                   allCommits, rejected, result, entered, stampBlocked>>
     /\ Eager /\ hist' = Append(hist, [act |-> IF toPut > 1 THEN "put" ELSE "lastput", t |-> 0, obs |-> Obs])
 
 GDone(t) ==
@@ -181,13 +194,13 @@ GDone(t) ==
     /\ result' = [result EXCEPT ![t] = "ok"]
     /\ pc' = [pc EXCEPT ![t] = "finished"]
     /\ UNCHANGED <<readTs, cts, nextTs, committedTxns, lastCleanup, txnBegun, rdBegun, rdDone, lockHolder, writeCh, batch, mem,
-                   allCommits, entered, toPut, stampBlocked>>
+                   allCommits, rejected, entered, toPut, stampBlocked>>
     /\ Eager /\ H("done", t)
 
 GNext ==
     /\ Room
     /\ \/ \E t \in Txns : GAlloc(t) \/ GEnter(t) \/ GReady(t) \/ GDiscard(t) \/ GStamp(t) \/ GTryStamp(t)
-                          \/ GEnqueue(t) \/ GDone(t)
+                          \/ GEnqueue(t) \/ GReject(t) \/ GDone(t)
        \/ \E t, u \in Txns : GEnqueueHandover(t, u)
        \/ GPut
 
